@@ -309,6 +309,9 @@ func (p *Program) exprD(v ssa.Value, d int) string {
 	case *ssa.Builtin:
 		return "builtin:" + x.Name()
 	case *ssa.Call:
+		if d < 6 {
+			return p.calleeKey(x.Common()) + "(…)"
+		}
 		return p.callStr(x.Common(), d)
 	case *ssa.Extract:
 		return p.exprD(x.Tuple, d) + "#" + fmt.Sprint(x.Index)
@@ -974,4 +977,126 @@ func (p *Program) fieldAddrOwner(fa *ssa.FieldAddr) string {
 		return n.Obj().Name()
 	}
 	return ""
+}
+
+// variadicArgs returns the values packed into the variadic slice argument v (a slice of a local
+// array filled by stores), in index order; nil if v is not such a slice.
+func (p *Program) variadicArgs(v ssa.Value) []ssa.Value {
+	sl, ok := v.(*ssa.Slice)
+	if !ok {
+		return nil
+	}
+	al, ok := sl.X.(*ssa.Alloc)
+	if !ok || al.Referrers() == nil {
+		return nil
+	}
+	vals := map[int64]ssa.Value{}
+	max := int64(-1)
+	for _, r := range *al.Referrers() {
+		ia, ok := r.(*ssa.IndexAddr)
+		if !ok || ia.Referrers() == nil {
+			continue
+		}
+		idx, ok := constInt(ia.Index)
+		if !ok {
+			return nil
+		}
+		for _, rr := range *ia.Referrers() {
+			if st, ok := rr.(*ssa.Store); ok && st.Addr == ssa.Value(ia) {
+				vals[idx] = st.Val
+				if idx > max {
+					max = idx
+				}
+			}
+		}
+	}
+	out := make([]ssa.Value, max+1)
+	for i := range out {
+		out[i] = vals[int64(i)]
+	}
+	return out
+}
+
+// verbIndex returns the index of the formatting verb that immediately follows marker in format
+// (counting verbs from 0, ignoring %%); -1 if marker is absent or not followed by a verb.
+func verbIndex(format, marker string) int {
+	at := strings.Index(format, marker)
+	if at < 0 {
+		return -1
+	}
+	at += len(marker)
+	n := 0
+	for i := 0; i < len(format); i++ {
+		if format[i] != '%' {
+			continue
+		}
+		if i+1 < len(format) && format[i+1] == '%' {
+			i++
+			continue
+		}
+		if i == at {
+			return n
+		}
+		n++
+	}
+	return -1
+}
+
+// evalAtEntry folds an integer expression with every phi replaced by its value on the edge
+// coming from outside the loop (the first iteration). ok=false if not foldable.
+func (p *Program) evalAtEntry(v ssa.Value, depth int) (int64, bool) {
+	if depth > 12 {
+		return 0, false
+	}
+	v = p.stripConv(v)
+	switch x := v.(type) {
+	case *ssa.Const:
+		return constInt(x)
+	case *ssa.Phi:
+		// entry edges: predecessors not dominated by the phi's block
+		var val *int64
+		for i, e := range x.Edges {
+			pred := x.Block().Preds[i]
+			if x.Block().Dominates(pred) {
+				continue
+			}
+			c, ok := p.evalAtEntry(e, depth+1)
+			if !ok {
+				return 0, false
+			}
+			if val != nil && *val != c {
+				return 0, false
+			}
+			val = &c
+		}
+		if val == nil {
+			return 0, false
+		}
+		return *val, true
+	case *ssa.BinOp:
+		a, ok1 := p.evalAtEntry(x.X, depth+1)
+		b, ok2 := p.evalAtEntry(x.Y, depth+1)
+		if !ok1 || !ok2 {
+			return 0, false
+		}
+		switch x.Op {
+		case token.ADD:
+			return a + b, true
+		case token.SUB:
+			return a - b, true
+		case token.MUL:
+			return a * b, true
+		}
+	}
+	return 0, false
+}
+
+// inLoopWith reports whether instructions a and b are in the body of a common natural loop.
+func inLoopWith(a, b ssa.Instruction) *loopInfo {
+	for _, l := range loopsOf(a.Parent()) {
+		if l.Body[a.Block()] && l.Body[b.Block()] {
+			return l
+		}
+	}
+	return nil
 }
